@@ -67,12 +67,14 @@ try:
     for c in checks:
         r = subprocess.run(["./vcheck", c, "--tier", tier], cwd="/verif", env=dict(os.environ, VERIF_REPO=wt), capture_output=True, text=True, timeout=3600)
         sigs = [l.strip()[len("violation: "):][:200] for l in r.stdout.split("\n") if l.strip().startswith("violation:")]
-        det[c] = {"exit": r.returncode, "violations": sigs[:6]}
+        det[c] = {"exit": r.returncode, "violations": sigs[:6], "violation_line": "VIOLATION property=" in r.stdout}
+        if r.returncode != 0 and not det[c]["violation_line"]:
+            det[c]["crashed"] = (r.stdout + r.stderr)[-300:]
         # the check rewrote evidence / replays for the patched tree: restore the committed ones
     subprocess.run(["git", "checkout", "--", "evidence"], cwd="/verif")
     subprocess.run(["git", "clean", "-fdq", "replays"], cwd="/verif")
     meta["checks"] = det
-    meta["detected_by"] = [c for c, d in det.items() if d["exit"] == 1]
+    meta["detected_by"] = [c for c, d in det.items() if d["exit"] == 1 and d["violation_line"]]
     valid = meta["baseline_ok"] and rc0 == 0 and rc1 != 0
     meta["valid_seed"] = valid
     print(json.dumps(meta, indent=1))
